@@ -227,7 +227,7 @@ func runC04(c *Ctx) {
 				var crcs []int
 				if size == 14 {
 					good := int(crc16(base))
-					crcs = []int{0, good, good ^ 1, good ^ 0x8000, good ^ 0x0100, (good + 1) & 0xFFFF, rng.Intn(65536)}
+					crcs = []int{0, good, good ^ 1, good ^ 0x8000, good ^ 0x0100, (good + 1) & 0xFFFF, rng.Intn(65536), 0xFFFF, 0x0001, 0xFF00}
 					if c.thorough() {
 						for bit := 0; bit < 16; bit++ {
 							crcs = append(crcs, good^(1<<uint(bit)))
